@@ -135,6 +135,64 @@ def collect(ctx: Ctx):
                 l._disconnect()
 
     vloop.run(loop, go())
+
+    # multi-packet replies: every packet of the reply - whatever its frame length, the legal empty frame included, at whatever position -
+    # is decoded and handed back, in order (separate segments / one coalesced segment; also a packet already waiting when the next send starts)
+    multi = {"frames": []}
+
+    def spy2(tr, data):
+        o = landev.v2_unwrap(data)
+        if o["ok"]:
+            pk = [landev.v2_wrap(fr, int.from_bytes(o["devid"], "little")) for fr in multi["frames"]]
+            if multi["coalesce"]:
+                loop.call_soon(tr.feed, b"".join(pk))
+            else:
+                for q in pk:
+                    loop.call_soon(tr.feed, q)
+    net.on_bytes = spy2
+
+    async def go2():
+        lens = [0, 1, 15, 16, 17, 34]
+        for k in range(ctx.pick(60, 600)):
+            devid = rng.getrandbits(64)
+            d8 = devid.to_bytes(8, "little")
+            nf = rng.choice([2, 2, 3, 4])
+            fl = [rng.choice(lens + [0, 0, rng.randrange(256)]) for _ in range(nf)]
+            if k < 12:
+                fl = [[0, 20], [20, 0], [20, 0, 20], [0, 0], [20, 0, 0, 20], [16, 0, 1]][k % 6]
+            multi["frames"] = [bytes(rng.randrange(256) for _ in range(n)) for n in fl]
+            multi["coalesce"] = k % 3 == 2
+            waiting = k % 4 == 1
+            l = LAN("10.0.0.1", 6444, devid)
+            try:
+                if waiting:
+                    # first exchange answered by packet 1 only; the others arrive while the client is idle and are met by the next send
+                    first, rest = multi["frames"][:1], multi["frames"][1:]
+                    multi["frames"], multi["coalesce"] = first, False
+                    r1 = list(await l.send(b"\xaa\x01", retries=1))
+                    for q in rest:
+                        net.conns[-1].feed(landev.v2_wrap(q, devid))
+                    multi["frames"] = [b"\xbb\x02"]
+                    r2 = list(await l.send(b"\xaa\x02", retries=1))
+                    got_list, exp_list = r1 + r2, first + rest + [b"\xbb\x02"]
+                else:
+                    got_list = list(await l.send(b"\xaa\x01", retries=1))
+                    exp_list = list(multi["frames"])
+            except Exception as e:  # noqa: BLE001 - code under test
+                got_list, exp_list = type(e).__name__, list(multi["frames"])
+            for j, fr in enumerate(exp_list):
+                back = landev.v2_wrap(fr, devid)
+                if isinstance(got_list, str):
+                    res = {"k": "raise", "exc": got_list}
+                elif j < len(got_list):
+                    res = {"k": "frame", "f": B(got_list[j])}
+                else:
+                    res = {"k": "raise", "exc": "nothing (frame %d of %d not returned)" % (j + 1, len(exp_list))}
+                vectors.append({"kind": "decode", "frame": B(fr), "devid": B(d8), "p": B(back), "o": v2_oracle(back), "res": res,
+                                "via": "LAN.send, packet %d of %d %s" % (j + 1, len(exp_list), "met by the next send" if waiting else ("in one segment" if multi["coalesce"] else "of one reply")), "nresp": len(exp_list)})
+            if l._protocol:
+                l._disconnect()
+    vloop.run(loop, go2())
     return vectors
 
 
